@@ -204,3 +204,53 @@ Proof.
   intros c H. pose proof esc_space_sweep as S. rewrite forallb_forall in S.
   exact (S c (zrange_in _ _ _ (value_byte_range _ H))).
 Qed.
+
+(* ---- references decode as XML says ---------------------------------------------------------- *)
+
+(* the five predefined entities decode to their characters (against the regenerated tables) *)
+Lemma predefined_entities : forall nm c, In (nm, c) std_entities -> unescape (38 :: nm ++ [59]) = [c].
+Proof.
+  intros nm c H. cbn [std_entities In] in H.
+  repeat (destruct H as [H|H]; [inversion H; subst; vm_compute; reflexivity|]). contradiction.
+Qed.
+
+(* a decimal character reference &#ddd; (value below 2^32) decodes to the UTF-8 form of its value,
+   wherever it stands *)
+Lemma digits_val_nonneg : forall ds acc, 0 <= acc -> 0 <= digits_val acc ds.
+Proof.
+  induction ds as [|d ds IH]; intros acc H; cbn [digits_val]; [exact H|].
+  destruct (is_digit d) eqn:E; [|exact H]. apply IH. unfold is_digit in E. apply andb_prop in E. lia.
+Qed.
+
+Lemma find_semi_digits : forall ds rest, forallb is_digit ds = true -> find_semi (ds ++ 59 :: rest) = Some (ds, rest).
+Proof.
+  induction ds as [|d ds IH]; intros rest H; [reflexivity|].
+  cbn [forallb] in H. apply andb_prop in H. destruct H as [Hd H]. cbn [app find_semi].
+  unfold is_digit in Hd. apply andb_prop in Hd.
+  destruct (d =? 0) eqn:E0; [apply Z.eqb_eq in E0; lia|].
+  destruct (d =? 59) eqn:E59; [apply Z.eqb_eq in E59; lia|].
+  rewrite (IH rest H). reflexivity.
+Qed.
+
+Lemma numeric_reference : forall d ds rest, forallb is_digit (d :: ds) = true -> digits_val 0 (d :: ds) < 4294967296 ->
+  unescape (38 :: 35 :: (d :: ds) ++ 59 :: rest) = utf8 (digits_val 0 (d :: ds)) ++ unescape rest.
+Proof.
+  intros d ds rest Hd Hv.
+  assert (F : find_semi (35 :: (d :: ds) ++ 59 :: rest) = Some (35 :: d :: ds, rest)).
+  { change (35 :: (d :: ds) ++ 59 :: rest) with (35 :: ((d :: ds) ++ 59 :: rest)). cbn [find_semi]. cbn [Z.eqb Pos.eqb].
+    rewrite (find_semi_digits (d :: ds) rest Hd). reflexivity. }
+  rewrite (unescape_amp_some _ _ _ F). unfold decode_sq. cbn [hd]. cbn [Z.eqb Pos.eqb].
+  unfold scan_u. cbn [Z.eqb Pos.eqb].
+  pose proof Hd as Hd'. cbn [forallb] in Hd'. apply andb_prop in Hd'. destruct Hd' as [Dd _].
+  assert (Sp : is_space d = false).
+  { unfold is_digit in Dd. apply andb_prop in Dd. unfold is_space.
+    destruct ((9 <=? d) && (d <=? 13)) eqn:E1; [apply andb_prop in E1; lia|].
+    destruct (d =? 32) eqn:E2; [apply Z.eqb_eq in E2; lia|reflexivity]. }
+  cbn [drop_spaces]. rewrite Sp.
+  assert (N45 : (d =? 45) = false) by (apply Z.eqb_neq; unfold is_digit in Dd; apply andb_prop in Dd; lia).
+  assert (N43 : (d =? 43) = false) by (apply Z.eqb_neq; unfold is_digit in Dd; apply andb_prop in Dd; lia).
+  rewrite N45, N43. rewrite Dd.
+  pose proof (digits_val_nonneg (d :: ds) 0 (Z.le_refl 0)) as Nn.
+  destruct (18446744073709551616 <=? digits_val 0 (d :: ds)) eqn:Big; [apply Z.leb_le in Big; lia|].
+  cbn [option_map]. rewrite Z.mod_small by lia. reflexivity.
+Qed.
